@@ -24,7 +24,15 @@ def parse_enums_structs(root):
             if cur.strip(): vs.append(cur.strip())
             enums[m.group(1)] = [re.match(r'(\w+)', v).group(1) for v in vs if re.match(r'(\w+)', v)]
         for m in re.finditer(r'struct (\w+)(?:<[^>]*>)?\s*\{(.*?)\n\}', s, re.S):
-            fs = re.findall(r'(?:pub(?:\([^)]*\))?\s+)?(\w+)\s*:', re.sub(r'<[^<>]*>', '', m.group(2)))
+            fs, depth, cur = [], 0, ''
+            for ch in m.group(2) + ',':
+                if ch in '(<[{': depth += 1
+                elif ch in ')>]}': depth -= 1
+                if ch == ',' and depth == 0:
+                    fm = re.match(r'\s*(?:#\[[^\]]*\]\s*)*(?:pub(?:\([^)]*\))?\s+)?(\w+)\s*:(?!:)', cur)
+                    if fm: fs.append(fm.group(1))
+                    cur = ''
+                else: cur += ch
             structs[m.group(1)] = fs
     return enums, structs
 
@@ -423,6 +431,12 @@ class Interp:
     def resolve(self, callee):
         last = re.sub(r'<[^<>]*>', '', re.sub(r'<[^<>]*>', '', callee)).split('::')[-1]
         c = [n for n in self.ctx.mir.index if n.endswith('::' + last) and 'promoted' not in n]
+        if len(c) > 1:
+            tm = re.match(r'<&?(?:mut )?([\w:]+)(?:<.*>)? as ', callee)
+            if tm:
+                ty = tm.group(1).split('::')[-1]
+                c2 = [n for n in c if re.search(r'\(_1: &(?:mut )?(?:[\w:]+::)?%s[,)<]' % re.escape(ty), self.ctx.mir.lines[self.ctx.mir.index[n]])]
+                if len(c2) == 1: c = c2
         if len(c) != 1: raise Unsupported('resolve %s -> %s' % (callee, c))
         return c[0]
 
